@@ -127,11 +127,16 @@ impl BigRat {
 	}
 
 	pub(crate) fn deserialize(read: &mut impl io::Read) -> FResult<Self> {
-		Ok(Self {
+		let res = Self {
 			sign: Sign::deserialize(read)?,
 			num: BigUint::deserialize(read)?,
 			den: BigUint::deserialize(read)?,
-		})
+		};
+		if res.den == 0.into() {
+			// not a number: arithmetic on it panics later (e.g. log2 of the denominator)
+			return Err(FendError::DeserializationError);
+		}
+		Ok(res)
 	}
 
 	pub(crate) fn is_integer<I: Interrupt>(&self, int: &I) -> FResult<bool> {
